@@ -446,11 +446,7 @@ nextStateFile:
 	if err != nil {
 		return nil, err
 	}
-	if len(mgr.builder.KnownPcaps()) != len(cachedKnownPcapData) {
-		if err := mgr.saveState(); err != nil {
-			return nil, fmt.Errorf("unable to save state: %w", err)
-		}
-	}
+	knownPcapsChanged := len(mgr.builder.KnownPcaps()) != len(cachedKnownPcapData)
 	mgr.pcapOverIPPackets = make(chan pcapOverIPPacket, 100)
 	mgr.pcapOverIPCmd = make(chan pcapOverIPCmd, 1)
 
@@ -459,6 +455,7 @@ nextStateFile:
 			f()
 		}
 	}()
+	saved := make(chan error, 1)
 	mgr.jobs <- func() {
 		go mgr.pcapOverIPPacketHandler()
 		go mgr.tagUpdateEventWorker()
@@ -468,6 +465,14 @@ nextStateFile:
 		for a := range pcapOverIPEndpoints {
 			mgr.pcapOverIPEndpoints = append(mgr.pcapOverIPEndpoints, mgr.newPcapOverIPEndpoint(ctx, a))
 		}
+		// save the state only now that everything of the old state is restored, the old state file is deleted
+		if knownPcapsChanged {
+			saved <- mgr.saveState()
+		}
+		close(saved)
+	}
+	if err := <-saved; err != nil {
+		return nil, fmt.Errorf("unable to save state: %w", err)
 	}
 	return &mgr, nil
 }
